@@ -46,7 +46,7 @@ F = Fraction
 GEN_D = 6          # degrees 0..GEN_D of the real clmo / encode tables are embedded in Gen/C06.lean (924 slots)
 TABLE_DEG = 30
 PROP_MODS = ["HitenModel.Props.C06"]
-SRC_MODS = ["HitenModel.Props.C06", "HitenModel.Lemmas.C06", "HitenModel.Lemmas.C06Poly", "HitenModel.Core.C06",
+SRC_MODS = ["HitenModel.Props.C06", "HitenModel.Lemmas.C06", "HitenModel.Lemmas.C06Poly", "HitenModel.Lemmas.C06Subst", "HitenModel.Core.C06",
             "HitenModel.Gen.C06"]
 
 # ----------------------------------------------------------------------------------------------------------------
